@@ -477,6 +477,19 @@ impl World {
         // either order of dispatch
         p.tasks = if k % 2 == 0 { vec![self.tasks[a].clone(), self.tasks[b].clone()] } else { vec![self.tasks[b].clone(), self.tasks[a].clone()] };
         p.strategy = Strategy::Random { stay: [0, 30, 50, 70, 85, 20][(k % 6) as usize] };
+        // every sixth duel starts with one of the state-filling modules (grid/many: more distinct names than a
+        // bounded table holds) run to completion on worker 0: whatever only happens once a process-wide table
+        // is full happens to the two duellists
+        if k % 6 == 5 {
+            let heavy: Vec<usize> = self.pool.iter().copied().filter(|i| self.tasks[*i].name.starts_with("w2/grid/many/") && self.tasks[*i].opt_name == "own" && self.tasks[*i].comments && !self.tasks[*i].script).collect();
+            if !heavy.is_empty() {
+                let h = heavy[(run / 6) as usize % heavy.len()];
+                p.tasks.insert(0, self.tasks[h].clone());
+                let mut script = vec![Action::Dispatch(0)];
+                script.extend(std::iter::repeat(Action::Resume(0)).take(self.info[h].steps as usize));
+                return (p, script);
+            }
+        }
         (p, vec![])
     }
 
